@@ -16,10 +16,10 @@ rm -f "$WT/$DEMOPKG/$(basename "$DEMO")"
 echo "== suite with patch (must pass)"; go test -vet=off -count=1 ./... 2>&1 | grep -v "no test files" | tail -7
 git checkout -q -- . ; git clean -fdq
 cd /verif
-git -C /repo apply "$SEED/patch.diff" || { echo "PATCH DOES NOT APPLY TO /repo"; exit 2; }
+git -C /repo apply "$SEED/patch.diff" 2>/dev/null || git -C /repo apply --3way "$SEED/patch.diff" || { echo "PATCH DOES NOT APPLY TO /repo"; git -C /repo reset -q --hard HEAD; exit 2; }
 for c in "$@"; do
   echo "== check $c on patched /repo"
   ./check $c ${TIER:-quick} 2>&1 | grep -E "^(VIOLATION|OK|KNOWN|BUILD|  section)" | head -6
 done
-git -C /repo checkout -q -- .
+git -C /repo reset -q --hard HEAD
 git -C /repo status --short | head -3
